@@ -1,3 +1,7 @@
-import Preflate.Props.C01
+import Preflate.Props.Library
+#print axioms Preflate.library_round_trip
+#print axioms Preflate.library_no_panic
+#print axioms Preflate.recreate_expand_on
+#print axioms Preflate.library_end_to_end
 #print axioms Preflate.recreate_expand_partial
 #print axioms Preflate.container_constants_match_source
